@@ -225,6 +225,7 @@ func c03Exec(op string) string {
 	if goEmpty {
 		mxj.XmlGoEmptyElemSyntax()
 	}
+	bystanders()
 	var b, bi []byte
 	var err, erri error
 	switch api {
@@ -281,6 +282,26 @@ func c03Exec(op string) string {
 	check("compact", b, nil)
 	if esc {
 		check("indented", bi, erri)
+	}
+	if len(notes) == 0 && wellFormedAll(b) {
+		// the post-encode validity check accepts what the encoders wrote: same bytes, no error
+		mxj.XmlCheckIsValid(true)
+		var bv []byte
+		var ev error
+		switch api {
+		case 0:
+			bv, ev = mxj.Map(v.(map[string]interface{})).Xml()
+		case 1:
+			bv, ev = mxj.Map(v.(map[string]interface{})).Xml(rt)
+		case 2:
+			bv, ev = mxj.AnyXml(v, rt, et)
+		case 3:
+			bv, ev = mxj.AnyXml(v)
+		}
+		mxj.XmlCheckIsValid(false)
+		if ev != nil || !bytes.Equal(bv, b) {
+			notes = append(notes, fmt.Sprintf("VALIDCHECK with XmlCheckIsValid the encoder rejects or changes its own well-formed output (%v): %s", ev, clip(string(b), 160)))
+		}
 	}
 	if mv, isMap := v.(map[string]interface{}); isMap && api == 0 && len(notes) == 0 && ap == "-" && hashStr(op)%3 == 0 {
 		if wn := wrapJsonToXml(mv); wn != "" {
